@@ -219,6 +219,14 @@ Proof.
     cbn [sid]. split; [exact Hoff|]. unfold seg_blk. cbn [sent]. symmetry. exact (find_key _ _ _ Hf).
 Qed.
 
+Lemma NoDup_map_inj {A B} (f : A -> B) : forall l, NoDup (map f l) -> forall x y, In x l -> In y l -> f x = f y -> x = y.
+Proof.
+  induction l as [|z l IH]; intros Hnd x y Hx Hy Hxy; [destruct Hx|]. cbn [map] in Hnd. inversion Hnd as [|? ? Hnin Hnd']; subst.
+  destruct Hx as [<-|Hx]; destruct Hy as [<-|Hy]; [reflexivity | | |exact (IH Hnd' x y Hx Hy Hxy)].
+  - exfalso. apply Hnin. rewrite Hxy. apply in_map. exact Hy.
+  - exfalso. apply Hnin. rewrite <- Hxy. apply in_map. exact Hx.
+Qed.
+
 Lemma nth_error_app_cases {A} (l1 l2 : list A) i x : nth_error (l1 ++ l2) i = Some x ->
   ((i < length l1)%nat /\ In x l1) \/ ((length l1 <= i)%nat /\ nth_error l2 (i - length l1) = Some x).
 Proof.
@@ -294,6 +302,43 @@ Section ThroughAt.
     unfold cur, ev_cursor. cbn [cu_blk]. rewrite (ca_cblk U a e ck P Q _ HC). cbn [bref rn]. exact (held_le_cursor x Hx).
   Qed.
 
+  (* the junction number of the checker is not above the junction block of the model's undo walk *)
+  Lemma junction_le_branch hd sg path j je :
+    last_sent s = Some hd -> complete_segment (db s) (bref hd) = Some (sg, true) ->
+    block_in (ri (cu_lib cur)) sg = true -> block_in (ri (cu_blk cur)) sg = false ->
+    branch_to (db s) sg (ri (cu_blk cur)) path j -> find j (store (db s)) = Some je ->
+    junction_num (cs_stack ck) S <= bnum (eb je).
+  Proof.
+    intros Hls E Hlibin Hin Hbr Hje.
+    destruct (cursor_meets U cfg U_id U_uniq U_up a s Fin S c HP e ck P Q F0 hd sg HC HF Hl0 HF0 Hnu Hls E Hlibin)
+      as (_ & Hgood & _ & _ & _ & Hstack & _ & Htarget & _ & _ & Hforkc).
+    fold cur in Htarget, Hforkc.
+    destruct (Hforkc Hin path j je Hbr Hje) as (HQdec & _ & HJge).
+    apply junction_num_le. intros i x y Hx Hy Hxy.
+    rewrite Hstack, rev_involutive in Hx. rewrite <- Htarget, rev_involutive in Hy.
+    pose proof (ca_P U a e ck P Q _ HC) as HPf. fold L in HPf.
+    assert (HLle : bnum L <= bnum (eb je)).
+    { unfold cur, ev_cursor in HJge. cbn [cu_lib] in HJge. rewrite (ca_elib U a e ck P Q _ HC) in HJge. exact HJge. }
+    apply nth_error_app_cases in Hx as [[Hi Hx]|[Hi Hx]].
+    { rewrite Forall_forall in HPf. pose proof (proj2 (HPf x Hx)). lia. }
+    rewrite nth_error_app2 in Hy by exact Hi.
+    rewrite HQdec in Hx. apply nth_error_app_cases in Hx as [[_ Hx]|[_ Hx]].
+    - (* held up to the junction *)
+      apply in_map_iff in Hx as (z & <- & Hz). unfold held_seg in Hz. apply filter_In in Hz as [Hzs Hz].
+      apply andb_true_iff in Hz as [_ Hz]. unfold not_held, junction_cursor in Hz. cbn [cu_blk rn] in Hz.
+      pose proof Hgood as [Hstd _ _ _]. rewrite <- (std_num sg Hstd z Hzs).
+      apply negb_true_iff in Hz. apply orb_false_iff in Hz as [Hz _]. apply N.ltb_ge in Hz. exact Hz.
+    - (* on the undone branch: never the same id as a block of the chain *)
+      exfalso. apply nth_error_In in Hx, Hy.
+      apply in_map_iff in Hx as (u & <- & Hu). apply in_rev in Hu. unfold undos_of in Hu. apply filter_In in Hu as [Hu _].
+      destruct (branch_off _ _ _ _ _ Hbr Hin u Hu) as [Hoff Hsid].
+      apply in_map_iff in Hy as (z & <- & Hz). unfold above_seg in Hz. apply filter_In in Hz as [Hzs _].
+      pose proof Hgood as [Hstd _ _ _]. rewrite Forall_forall in Hstd. destruct (Hstd z Hzs) as [Hzid _].
+      assert (Hon : block_in (sid u) sg = true).
+      { apply block_in_spec. exists z. split; [exact Hzs|]. congruence. }
+      congruence.
+  Qed.
+
   Lemma through_at start evs :
     start <= junction_num (cs_stack ck) S ->
     hub_through_cursor s start cur = BOk evs ->
@@ -343,31 +388,7 @@ Section ThroughAt.
       assert (Hcst : starts_within csg start).
       { unfold csg. cbn [starts_within]. pose proof Hcgood as [Hstd _ _ _].
         rewrite <- (std_num csg Hstd c0 (or_introl eq_refl)). exact Hc0. }
-      (* the junction number of the checker is not above the junction block *)
-      assert (HJ2 : junction_num (cs_stack ck) S <= bnum (eb je)).
-      { apply junction_num_le. intros i x y Hx Hy Hxy.
-        rewrite Hstack, rev_involutive in Hx. rewrite <- Htarget, rev_involutive in Hy.
-        pose proof (ca_P U a e ck P Q _ HC) as HPf. fold L in HPf.
-        assert (HLle : bnum L <= bnum (eb je)).
-        { unfold cur, ev_cursor in HJge. cbn [cu_lib] in HJge. rewrite (ca_elib U a e ck P Q _ HC) in HJge. exact HJge. }
-        apply nth_error_app_cases in Hx as [[Hi Hx]|[Hi Hx]].
-        { rewrite Forall_forall in HPf. pose proof (proj2 (HPf x Hx)). lia. }
-        rewrite nth_error_app2 in Hy by exact Hi.
-        rewrite HQdec in Hx. apply nth_error_app_cases in Hx as [[_ Hx]|[_ Hx]].
-        - (* held up to the junction *)
-          apply in_map_iff in Hx as (z & <- & Hz). unfold held_seg in Hz. apply filter_In in Hz as [Hzs Hz].
-          apply andb_true_iff in Hz as [_ Hz]. unfold not_held, junction_cursor in Hz. cbn [cu_blk rn] in Hz.
-          pose proof Hgood as [Hstd _ _ _]. rewrite <- (std_num sg Hstd z Hzs).
-          apply negb_true_iff in Hz. apply orb_false_iff in Hz as [Hz _]. apply N.ltb_ge in Hz. exact Hz.
-        - (* on the undone branch: never the same id as a block of the chain *)
-          exfalso. apply nth_error_In in Hx, Hy.
-          apply in_map_iff in Hx as (u & <- & Hu). apply in_rev in Hu. unfold undos_of in Hu. apply filter_In in Hu as [Hu _].
-          destruct (branch_off _ _ _ _ _ Hbr Hin u Hu) as [Hoff Hsid].
-          apply in_map_iff in Hy as (z & <- & Hz). unfold above_seg in Hz. apply filter_In in Hz as [Hzs _].
-          pose proof Hgood as [Hstd _ _ _]. rewrite Forall_forall in Hstd. destruct (Hstd z Hzs) as [Hzid _].
-          assert (Hon : block_in (sid u) sg = true).
-          { apply block_in_spec. exists z. split; [exact Hzs|]. congruence. }
-          congruence. }
+      pose proof (junction_le_branch hd sg path j je Hls E Hlibin Hin Hbr Hje) as HJ2.
       assert (Hsj : start <= bnum (eb je) + 1) by lia.
       assert (Hmono : rn (cu_lib cur) <= rn (libref (db s))).
       { destruct (inv_lib U cfg a s Fin S Ha HI) as [_ Hlib]. rewrite Hlib.
@@ -376,6 +397,183 @@ Section ThroughAt.
       destruct (c05_through_forked_consumer_proof s hd sg start cur csg path j je evs W HCh Hst Hin Hnumbered Ec Hcst Hlibx Hbr Hje HJge Hsj HB)
         as (Hfold & _ & Hnf).
       rewrite <- (Hnf Hmono). exact Hfold.
+  Qed.
+  (* ------------------------------------------------------------ the serving side *)
+
+  Variable B0 : list block.
+  Hypothesis HFR : HubInv.FinRooted a Fin.
+  Hypothesis HH : Held B0 e Q (libblk a P).
+  Hypothesis HRt : Ret B0 s.
+
+  Lemma hub_through_is_through start : start <= junction_num (cs_stack ck) S ->
+    hub_through_cursor s start cur = blocks_through_cursor s start cur.
+  Proof.
+    intros Hstart. pose proof junction_le_cursor as HJ1. unfold hub_through_cursor.
+    destruct (N.ltb_spec (rn (cu_blk cur)) start) as [Hc|_]; [exfalso; lia | reflexivity].
+  Qed.
+
+  Lemma through_serve_at start hd sg :
+    last_sent s = Some hd -> complete_segment (db s) (bref hd) = Some (sg, true) ->
+    start <= junction_num (cs_stack ck) S ->
+    ((exists evs, hub_through_cursor s start cur = BOk evs) ->
+       starts_within sg start /\ (block_in (ri (cu_blk cur)) sg = true \/ block_in (ri (cu_lib cur)) sg = true)) /\
+    (starts_within sg start -> block_in (ri (cu_blk cur)) sg = true ->
+       exists evs, hub_through_cursor s start cur = BOk evs) /\
+    (starts_within sg start -> block_in (ri (cu_lib cur)) sg = true -> block_in (ri (cu_blk cur)) sg = false ->
+       exists path j je,
+         branch_to (db s) sg (ri (cu_blk cur)) path j /\ find j (store (db s)) = Some je /\
+         junction_num (cs_stack ck) S <= bnum (eb je) /\
+         (rn (libref (db s)) <= bnum (eb je) -> exists evs, hub_through_cursor s start cur = BOk evs) /\
+         (bnum (eb je) < rn (libref (db s)) -> hub_through_cursor s start cur = BErr)).
+  Proof.
+    intros Hls E Hstart.
+    pose proof (inv_wf_state U cfg U_id U_uniq U_up a s Fin S Ha HI) as W. pose proof W as [[Wst _] _].
+    pose proof (i_db U _ _ _ _ _ HI) as Hd.
+    assert (HCh : head_chain s hd sg) by (split; [exact (di_has_lib U (R a) _ Hd) | split; [exact Hls | exact E]]).
+    destruct (head_chain_good s hd sg W HCh) as [Hgood [Hstored _]].
+    pose proof Hgood as [Hstd Hlk Hinc Hnd].
+    rewrite (hub_through_is_through start Hstart).
+    pose proof junction_le_cursor as HJ1.
+    split; [|split].
+    - (* (1) *)
+      intros [evs HB]. destruct (through_ok_inv s start cur evs HB) as (hd' & s0 & sg' & (_ & Hls' & E') & Hs0 & Hcases).
+      rewrite Hls in Hls'. injection Hls' as <-. rewrite E in E'. injection E' as ->.
+      split.
+      + cbn [starts_within]. rewrite <- (std_num _ Hstd s0 (or_introl eq_refl)). exact Hs0.
+      + destruct Hcases as [Hin|(_ & c0 & csg' & evs2 & _ & _ & HB2)]; [left; exact Hin|].
+        right. exact (from_cursor_ok_lib s cur evs2 hd _ HB2 Hls E).
+    - (* (2) *)
+      intros Hst Hin. destruct (c05_through_on_chain_proof s hd sg start cur W HCh Hin Hst) as (HB' & _). eauto.
+    - (* (3) *)
+      intros Hst Hlibin Hin.
+      destruct (cursor_meets U cfg U_id U_uniq U_up a s Fin S c HP e ck P Q F0 hd sg HC HF Hl0 HF0 Hnu Hls E Hlibin)
+        as (_ & _ & _ & Hlibx & Hnumbered & _).
+      fold cur in Hlibx, Hnumbered.
+      destruct (serve_at U cfg U_id U_uniq U_up a s Fin S c HP e ck P Q F0 B0 hd sg HC HF Hl0 HF0 Hnu HH HRt Hls E Hlibin) as [evs2 HB2].
+      fold cur in HB2.
+      destruct (c05_forked_path_proof s hd sg cur Wst Hstored) as (Htotal & _ & Hwalk & _ & Hburst).
+      destruct (Hburst Hlibin Hin) as [_ Herr].
+      destruct (starts_within_cons _ _ Hst) as (s0 & sg' & Esg & Hs0).
+      destruct (lib_on_chain sg s0 sg' cur Hgood Esg Hlibx) as [Hle0 _].
+      destruct Htotal as [(path & j & Hbr)|Hbroken].
+      2:{ exfalso. rewrite Esg in E. rewrite (blocks_from_cursor_eq s cur hd s0 sg' (di_has_lib U (R a) _ Hd) Hls E Hle0) in HB2.
+          rewrite <- Esg in HB2. rewrite (Herr Hbroken) in HB2. discriminate HB2. }
+      destruct (c05_through_forked_proof s hd sg start cur W HCh Hst Hin Hnumbered)
+        as (csg & reach & Ec & _ & _ & Hbot & _ & Hreach & _ & Hnoreach & _ & _ & Hmain).
+      destruct (through_forked_structure s hd sg cur csg reach path j W HCh Hnumbered Ec Hbr) as (lo & xj & hi & Hsplit & Hxj & Hfj & Ecsg).
+      exists path, j, (sent xj). split; [exact Hbr|]. split; [exact Hfj|].
+      split; [exact (junction_le_branch hd sg path j (sent xj) Hls E Hlibin Hin Hbr Hfj)|].
+      assert (Hxjs : In xj sg) by (rewrite Hsplit; apply in_or_app; right; left; reflexivity).
+      assert (Hnj : bnum (eb (sent xj)) = snum xj) by (symmetry; exact (std_num _ Hstd xj Hxjs)).
+      rewrite Hnj.
+      (* the LIB block on the segment *)
+      destruct (post_chain U cfg U_id U_uniq U_up a s Fin S c HP HFR hd sg Hls E) as (lo' & xL & hi' & Hsplit' & _ & HbL & Hlib & _).
+      assert (HxLs : In xL sg) by (rewrite Hsplit'; apply in_or_app; right; left; reflexivity).
+      assert (HsL : sid xL = ri (libref (db s))).
+      { rewrite Forall_forall in Hstd. destruct (Hstd xL HxLs) as [G _]. rewrite G, HbL, Hlib. reflexivity. }
+      assert (HnL : snum xL = rn (libref (db s))).
+      { rewrite (std_num _ Hstd xL HxLs), HbL, Hlib. reflexivity. }
+      (* the cursor's own segment reaches the LIB iff the LIB block is at or below the junction *)
+      assert (Hiff : reach = true <-> rn (libref (db s)) <= snum xj).
+      { rewrite Hreach, <- HnL. split.
+        - intros Hmem. apply in_app_or in Hmem as [Hmem|[Hmem|[]]].
+          + rewrite Ecsg in Hmem. change (xj :: rev path) with ([xj] ++ rev path) in Hmem. rewrite app_assoc, map_app in Hmem.
+            apply in_app_or in Hmem as [Hmem|Hmem].
+            * apply in_map_iff in Hmem as (z & Hz & Hzin).
+              assert (Hzs : In z sg) by (rewrite Hsplit; change (xj :: hi) with ([xj] ++ hi); rewrite app_assoc; apply in_or_app; left; exact Hzin).
+              assert (z = xL).
+              { apply (NoDup_map_inj sid sg Hnd); [exact Hzs | exact HxLs | congruence]. }
+              subst z. apply in_app_or in Hzin as [Hzin|[<-|[]]]; [|lia].
+              rewrite Hsplit in Hinc. destruct (StronglySorted_split seg_lt lo xj hi Hinc) as [G _].
+              specialize (G xL Hzin). rewrite Forall_forall in Hstd.
+              pose proof (snum_lt_of xL xj (Hstd _ HxLs) (Hstd _ Hxjs) G). lia.
+            * exfalso. apply in_map_iff in Hmem as (u & Hu & Huin). apply in_rev in Huin.
+              destruct (branch_off _ _ _ _ _ Hbr Hin u Huin) as [Hoff _].
+              assert (block_in (sid u) sg = true) by (apply block_in_spec; exists xL; split; [exact HxLs | congruence]).
+              congruence.
+          + exfalso. rewrite Hmem, <- HsL, (Hstored xL HxLs) in Hbot. discriminate Hbot.
+        - intros Hle. apply in_or_app. left. rewrite Ecsg. change (xj :: rev path) with ([xj] ++ rev path). rewrite app_assoc, map_app.
+          apply in_or_app. left. rewrite <- HsL. apply in_map.
+          rewrite Hsplit in HxLs. apply in_app_or in HxLs as [G|[G|G]].
+          + apply in_or_app. left. exact G.
+          + apply in_or_app. right. left. exact G.
+          + exfalso. rewrite Hsplit in Hinc. destruct (StronglySorted_split seg_lt lo xj hi Hinc) as [_ G2].
+            specialize (G2 xL G). rewrite Forall_forall in Hstd.
+            assert (In xL sg) by (rewrite Hsplit; apply in_or_app; right; right; exact G).
+            pose proof (snum_lt_of xj xL (Hstd _ Hxjs) (Hstd _ H) G2). lia. }
+      split.
+      + intros Hle. apply Hiff in Hle.
+        assert (Hc0 : exists c0 rest, csg = c0 :: rest /\ bnum (seg_blk c0) <= start).
+        { rewrite Ecsg. rewrite Esg in Hsplit. destruct lo as [|l0 lo1]; cbn [app] in Hsplit |- *; injection Hsplit as <- _; eauto. }
+        destruct Hc0 as (c0 & rest & Ecsg' & Hc0).
+        destruct (Hmain Hle c0 rest Ecsg' Hc0) as [Heq _]; [lia|].
+        rewrite Heq, HB2. eauto.
+      + intros Hlt. apply Hnoreach. destruct reach; [|reflexivity]. exfalso. pose proof (proj1 Hiff eq_refl). lia.
+  Qed.
+
+  (* refused although start is on the retained chain at or below the junction and the cursor LIB is on the chain: the one
+     situation of the known finding *)
+  Lemma through_refused_at start hd sg :
+    last_sent s = Some hd -> complete_segment (db s) (bref hd) = Some (sg, true) ->
+    start <= junction_num (cs_stack ck) S ->
+    starts_within sg start -> block_in (ri (cu_lib cur)) sg = true ->
+    (forall evs, hub_through_cursor s start cur <> BOk evs) ->
+    hub_through_cursor s start cur = BErr /\
+    block_in (ri (cu_blk cur)) sg = false /\ find (ri (cu_blk cur)) (store (db s)) <> None /\
+    ~ In (ri (cu_blk cur)) (map bid S) /\
+    junction_num (cs_stack ck) S < rn (libref (db s)) /\
+    exists l fs, rev Fin = l :: fs /\ bref l = libref (db s).
+  Proof.
+    intros Hls E Hstart Hst Hlibin Hno.
+    destruct (through_serve_at start hd sg Hls E Hstart) as (_ & H2 & H3).
+    destruct (block_in (ri (cu_blk cur)) sg) eqn:Hin.
+    { exfalso. destruct (H2 Hst eq_refl) as [evs HB]. exact (Hno evs HB). }
+    destruct (H3 Hst Hlibin eq_refl) as (path & j & je & Hbr & Hje & HJ2 & Hserved & Hrefused).
+    destruct (N.le_gt_cases (rn (libref (db s))) (bnum (eb je))) as [Hle|Hlt].
+    { exfalso. destruct (Hserved Hle) as [evs HB]. exact (Hno evs HB). }
+    split; [exact (Hrefused Hlt)|]. split; [reflexivity|].
+    split.
+    { destruct (branch_to_head _ _ _ _ _ Hbr) as (e0 & rest & Hf & _). rewrite Hf. discriminate. }
+    destruct (cursor_meets U cfg U_id U_uniq U_up a s Fin S c HP e ck P Q F0 hd sg HC HF Hl0 HF0 Hnu Hls E Hlibin)
+      as (_ & Hgood & _ & _ & _ & _ & _ & Htarget & _ & _ & Hforkc).
+    fold cur in Htarget, Hforkc.
+    destruct (Hforkc Hin path j je Hbr Hje) as (_ & _ & HJge).
+    destruct HC as [Hstack HLU Helib HPf HQf Hlq Hbk Hcb Hnew Hundo]. fold L in HLU, Helib, HPf, HQf, Hlq, Hundo.
+    assert (Hcbk : ri (cu_blk cur) = bid (eblk e)) by (unfold cur, ev_cursor; cbn [cu_blk]; rewrite Hcb; reflexivity).
+    assert (HLle : bnum L <= bnum (eb je)).
+    { unfold cur, ev_cursor in HJge. cbn [cu_lib] in HJge. rewrite Helib in HJge. exact HJge. }
+    destruct (post_segment U cfg U_id U_uniq U_up a s Fin S c HP hd sg true Hls E) as (_ & _ & HsU & _).
+    pose proof Hgood as [Hstd _ _ _].
+    split.
+    { (* the never-disconnected consumer does not hold the cursor block *)
+      intros Hmem. rewrite <- Htarget, map_rev in Hmem. apply in_rev in Hmem. apply in_map_iff in Hmem as (y & Hy & Hyin).
+      rewrite Hcbk in Hy, Hin.
+      apply in_app_or in Hyin as [Hyin|Hyin].
+      - (* among the blocks up to the cursor LIB *)
+        rewrite Forall_forall in HPf. destruct (HPf y Hyin) as [HyU Hyle].
+        assert (y = eblk e) by (apply U_uniq; assumption). subst y.
+        destruct Hnu as [HeN|HeU].
+        + destruct (Hnew HeN) as [l0 Hl0'].
+          destruct Q as [|q0 Q0] eqn:EQ.
+          * rewrite app_nil_r in Hl0'.
+            assert (HeL : eblk e = L) by (unfold L, libblk; rewrite Hl0', rev_app_distr; reflexivity).
+            unfold cur, ev_cursor in Hlibin. cbn [cu_lib] in Hlibin. rewrite Helib in Hlibin. cbn [bref ri] in Hlibin.
+            rewrite HeL in Hin. congruence.
+          * rewrite <- EQ in *. destruct (last_of_app _ _ _ _ Hl0') as [Q1 HQ1]; [rewrite EQ; discriminate|].
+            assert (Hein : In (eblk e) Q) by (rewrite HQ1; apply in_or_app; right; left; reflexivity).
+            rewrite Forall_forall in HQf. pose proof (proj2 (HQf _ Hein)). lia.
+        + destruct (Hundo HeU) as [_ Hbn]. lia.
+      - (* among the blocks of the chain *)
+        apply in_map_iff in Hyin as (z & <- & Hz). unfold above_seg in Hz. apply filter_In in Hz as [Hzs _].
+        rewrite Forall_forall in Hstd. destruct (Hstd z Hzs) as [Hzid _].
+        assert (block_in (bid (eblk e)) sg = true) by (apply block_in_spec; exists z; split; [exact Hzs | congruence]).
+        congruence. }
+    split; [lia|].
+    destruct (inv_lib U cfg a s Fin S Ha HI) as [_ Hlib].
+    destruct Fin as [|f Fin0 _] eqn:EF using rev_ind.
+    - exfalso. symmetry in HF. apply app_eq_nil in HF as [HP0 _]. rewrite Hlib in Hlt. unfold L in HLle. rewrite HP0 in HLle.
+      cbn [bref rn] in Hlt. unfold libblk in Hlt, HLle. cbn [rev] in Hlt, HLle. lia.
+    - exists f, (rev Fin0). split; [apply rev_app_distr|]. rewrite Hlib. unfold libblk. rewrite rev_app_distr. reflexivity.
   Qed.
 End ThroughAt.
 
@@ -469,10 +667,60 @@ Section History.
     destruct (post_head h cfg Hid Huniq Hup a _ Fin S cm HP) as (hd' & p & _ & _ & _ & HS & _).
     rewrite HS, rev_involutive, firstn_app, Nat.sub_diag, firstn_all. cbn [firstn]. rewrite app_nil_r. reflexivity.
   Qed.
+
+  Lemma through_serves_history_proof k m ek ck cm start hd sg :
+    let s := state_after cfg s0 h m in
+    let cur := ev_cursor ek in
+    nth_error (concat (map fst (firstn (length tr) tr))) k = Some ek -> (estep ek = SNew \/ estep ek = SUndo) ->
+    (k < length (concat (map fst (firstn m tr))))%nat ->
+    cons_fold cons0 (firstn (Datatypes.S k) (concat (map fst (firstn (length tr) tr)))) = Some ck ->
+    cons_fold cons0 (concat (map fst (firstn m tr))) = Some cm ->
+    last_sent s = Some hd -> complete_segment (db s) (bref hd) = Some (sg, true) ->
+    start <= junction_num (cs_stack ck) (cs_stack cm) ->
+    ((exists evs, hub_through_cursor s start cur = BOk evs) ->
+       starts_within sg start /\ (block_in (ri (cu_blk cur)) sg = true \/ block_in (ri (cu_lib cur)) sg = true)) /\
+    (starts_within sg start -> block_in (ri (cu_blk cur)) sg = true ->
+       exists evs, hub_through_cursor s start cur = BOk evs) /\
+    (starts_within sg start -> block_in (ri (cu_lib cur)) sg = true -> block_in (ri (cu_blk cur)) sg = false ->
+       exists path j je,
+         branch_to (db s) sg (ri (cu_blk cur)) path j /\ find j (store (db s)) = Some je /\
+         junction_num (cs_stack ck) (cs_stack cm) <= bnum (eb je) /\
+         (rn (libref (db s)) <= bnum (eb je) -> exists evs, hub_through_cursor s start cur = BOk evs) /\
+         (bnum (eb je) < rn (libref (db s)) -> hub_through_cursor s start cur = BErr)) /\
+    (starts_within sg start -> block_in (ri (cu_lib cur)) sg = true ->
+     (forall evs, hub_through_cursor s start cur <> BOk evs) ->
+       hub_through_cursor s start cur = BErr /\
+       block_in (ri (cu_blk cur)) sg = false /\ find (ri (cu_blk cur)) (store (db s)) <> None /\
+       ~ In (ri (cu_blk cur)) (map bid (cs_stack cm)) /\
+       junction_num (cs_stack ck) (cs_stack cm) < rn (libref (db s)) /\
+       exists l fs, rev (finals_of cm) = l :: fs /\ bref l = libref (db s)).
+  Proof.
+    intros s cur Hk Hnu Hlt Hck Hcm Hls E Hstart.
+    destruct (locate2 k m ek Hk Hnu Hlt) as (a & Fin & S & c & ck0 & P & Q & F0 & B0 & HP & HFR & Hc & Hck0 & HC & HF & Hl0 & HF0 & HH & HRt).
+    rewrite Hck in Hck0. injection Hck0 as <-. rewrite Hcm in Hc. injection Hc as <-.
+    pose proof (po_cons h cfg _ _ _ _ _ HP) as Ecm.
+    assert (HcS : cs_stack cm = S) by (rewrite Ecm; reflexivity).
+    assert (HcF : finals_of cm = Fin).
+    { rewrite Ecm. unfold finals_of. cbn [cs_nf cs_stack].
+      destruct (post_head h cfg Hid Huniq Hup a _ Fin S cm HP) as (hd' & p & _ & _ & _ & HS & _).
+      rewrite HS, rev_involutive, firstn_app, Nat.sub_diag, firstn_all. cbn [firstn]. rewrite app_nil_r. reflexivity. }
+    rewrite HcS in *. rewrite HcF.
+    destruct (through_serve_at h cfg Hid Huniq Hup a _ Fin S cm HP ek ck P Q F0 HC HF Hl0 HF0 Hnu B0 HFR HH HRt start hd sg Hls E Hstart)
+      as (H1 & H2 & H3).
+    split; [exact H1|]. split; [exact H2|]. split; [exact H3|].
+    intros Hst Hlibin Hno.
+    exact (through_refused_at h cfg Hid Huniq Hup a _ Fin S cm HP ek ck P Q F0 HC HF Hl0 HF0 Hnu B0 HFR HH HRt start hd sg Hls E Hstart Hst Hlibin Hno).
+  Qed.
 End History.
 
 Lemma c05_through_history_proof : C05_through_history.
 Proof.
   intros first kept h k m ek ck cm start evs Hwf Hok cfg tr upto s Hk Hnu Hlt Hck Hcm Hstart HB.
   exact (through_history_proof first kept h Hwf Hok k m ek ck cm start evs Hk Hnu Hlt Hck Hcm Hstart HB).
+Qed.
+
+Lemma c05_through_serves_history_proof : C05_through_serves_history.
+Proof.
+  intros first kept h k m ek ck cm start hd sg Hwf Hok cfg tr upto s cur Hk Hnu Hlt Hck Hcm Hls E Hstart.
+  exact (through_serves_history_proof first kept h Hwf Hok k m ek ck cm start hd sg Hk Hnu Hlt Hck Hcm Hls E Hstart).
 Qed.
